@@ -91,7 +91,7 @@ func init() {
 		NotDecided: "That the window of the bounds' common prefix a node's compressed path is compared with is the one at the node's key position (the position arithmetic of the scan beyond R11's per-entry depth) – a value-level argument about byte positions."})
 	registerProp(&propSpec{ID: "C04", Level: "other", DesignRef: "§4 C04",
 		Rules:      []string{"R13", "R40", "R39", "R11", "R10", "R06", "R09", "R01", "R12", "R27", "R44"},
-		Explain:    "Prefix: R13 every yield of the filtering scan is dominated by the predicate, which calls bytes.HasPrefix(stored key, requested prefix) in that argument order – so nothing that does not start with p is yielded; the subtree selector is a single-path descent (no worklist: R11), indexes the prefix only under a length guard (R01), never reads a leaf as an inner node (R06) and is only entered with a non-nil root (R12); R09/R10 the scan enumerates every child of every node kind with in-range indexes. R40 Prefix returns the filtering scan (or All() for the empty prefix) and nothing else; R39 the scan ends only on an empty stack or a false yield.",
+		Explain:    "Prefix: R13 every yield of the filtering scan is dominated by the predicate, which calls bytes.HasPrefix(stored key, requested prefix) in that argument order – so nothing that does not start with p is yielded; the subtree selector is a single-path descent (no worklist: R11), indexes the prefix only under a length guard (R01), never reads a leaf as an inner node (R06) and is only entered with a non-nil root (R12); R09/R10 the scan enumerates every child of every node kind with in-range indexes. R40 Prefix returns the filtering scan (or All() for the empty prefix) and nothing else; R39 the scan ends only on an empty stack or a false yield. R46 the subtree selector advances its position only by a whole compressed path or one branch byte, and hands prefixMismatch – which compares with the key of a stored leaf index by index – the whole prefix and the absolute position, never a remainder cut at the front.",
 		NotDecided: "That the selector's byte-position arithmetic (prefixMismatch against compressed paths longer than the inline limit) returns a subtree containing every matching key."})
 	registerProp(&propSpec{ID: "C05", Level: "other", DesignRef: "§4 C05",
 		Rules:      []string{"R09", "R12", "R35", "R38", "R27", "R06", "R39"},
@@ -245,6 +245,10 @@ func init() {
 	// a write through a key argument reaches a stored key when the argument is a slice of a key the
 	// tree handed out: the leaf is then no longer on the path its bytes determine
 	impliedProps["R26"] = append(impliedProps["R26"], "C11")
+	// a lookup that accepts a slot beyond the fill count follows a reference into a node that has
+	// gone back to the pool – and since then belongs to another tree
+	impliedProps["R19"] = append(impliedProps["R19"], "C12")
+	impliedProps["R09"] = append(impliedProps["R09"], "C12")
 	// the wrapped counter of a full node of the widest class
 	impliedProps["R56"] = append(impliedProps["R56"], "C15", "C06", "C01", "C05", "C10", "C11", "C12", "C17")
 	impliedProps["R16"] = append(impliedProps["R16"], "C06")
